@@ -356,6 +356,13 @@ func TestReplay(t *testing.T) {
 		}
 		c.Case()
 		runProgram(t, c, p, true)
+	case "errors":
+		var p errProgram
+		if err := json.Unmarshal(doc.Data, &p); err != nil {
+			t.Fatalf("bad replay data: %v", err)
+		}
+		c.Case()
+		runErrProgram(t, c, p)
 	default:
 		t.Fatalf("unknown check %q", doc.Check)
 	}
